@@ -5,6 +5,7 @@ import Bclv.Model.Args
 import Bclv.Model.ProtoRun
 import Bclv.Model.BindWire
 import Bclv.Model.Scoped
+import Bclv.Model.Bufio
 /-!
 # Line-protocol driver: one operation per input line, one result line per operation.
 All payloads are hexadecimal.
@@ -159,6 +160,13 @@ def runOp (words : List String) : String :=
     | .usage _ => "usage-error"
   | ["LOAD", hex] =>
     match load (fromHex hex) with
+    | .ok p => "ok " ++ fmtProg p
+    | .err m => "err " ++ m
+    | .panic => "panic"
+  | ["LOADC", chunks] =>
+    -- Load through the model of the 4096-byte buffered reader, one piece per read
+    let cs := if chunks == "." then [] else (chunks.splitOn ",").map fromHex
+    match loadR cs with
     | .ok p => "ok " ++ fmtProg p
     | .err m => "err " ++ m
     | .panic => "panic"
